@@ -4,6 +4,8 @@ import (
 	"fmt"
 	"reflect"
 	"strings"
+	"unicode"
+	"unicode/utf8"
 )
 
 // String returns the EBNF for the grammar.
@@ -77,7 +79,8 @@ func productionName(n node, t reflect.Type, seen map[node]string) (string, bool)
 	if name == "" {
 		name = fmt.Sprintf("Anon%d", len(seen))
 	} else {
-		name = strings.ToUpper(name[:1]) + name[1:]
+		first, size := utf8.DecodeRuneInString(name) // The first letter, not the first byte.
+		name = string(unicode.ToUpper(first)) + name[size:]
 	}
 	seen[n] = name
 	return name, true
